@@ -291,10 +291,11 @@ def decide_locked(h, workdir, solver, timeout, mem_gb, extra_flags):
     cmd = ["/usr/bin/time", "-f", "MAXRSS_KB=%M", "cbmc"] + CBMC_BASE + ["--unwind", str(unwind)] + \
         solver_flags + list(extra_flags) + [out, "--verbosity", "8"]
     rc, dt, _ = run(cmd, timeout=timeout, out=logf, mem_gb=mem_gb)
-    try:
-        os.remove(out)
-    except OSError:
-        pass
+    if os.environ.get("VERIF_KEEP_GOTO") != "1":
+        try:
+            os.remove(out)
+        except OSError:
+            pass
     parsed = parse_cbmc_log(logf)
     if rc == 124:
         parsed["verdict"] = None
